@@ -1648,6 +1648,9 @@ func init() {
 		if err := runC03CommitOrder(c); err != nil {
 			return err
 		}
+		if err := runReadersVsCompactions(c); err != nil {
+			return err
+		}
 		if err := stressAtomic(c, concScale(c), false); err != nil {
 			return err
 		}
